@@ -385,7 +385,14 @@ def _canary_task(i):
         r = driver.run_contracts(world, contracts, uses_c, only=[cn.get('verify', cn['function'])],
                                  combo_filter=cn.get('combos'))
         o2, _ = driver.aggregate(contracts, r)
-        return o2.get(cn['expect'], {}).get('status')
+        st = o2.get(cn['expect'], {}).get('status')
+        if st != 'refuted':
+            # the mutated body must be rejected; the obligation that rejects it may be another one of the same
+            # contract (e.g. an assertion of the code itself now fails first)
+            for oid, o in sorted(o2.items()):
+                if o.get('status') == 'refuted':
+                    return 'refuted'
+        return st
     except Exception as e:      # noqa
         return f"error: {e!r}"
 
